@@ -25,6 +25,8 @@ def gen_config(rnd, S, opts=None):
                "dividend_reinvestment": rnd.random() < opts.get("p_reinvest", 0.25),
                "cash_return_by_stock_delisted": rnd.random() < 0.85,
                "futures_settlement_price_type": rnd.choice(["close", "settlement"])}
+    if opts.get("p_auto_switch") and rnd.random() < opts["p_auto_switch"]:
+        acc_mod["auto_switch_order_value"] = True
     accounts = {}
     if S["stocks"]:
         accounts["stock"] = round(rnd.choice([3000, 20000, 200000, 2e6]) * rnd.uniform(0.5, 1.5), 2)
